@@ -275,7 +275,7 @@ def _graph_events(g) -> list:
 
     if isinstance(g, rdflib.Dataset):
         return [("st", T.norm_st((T.from_rdflib(s), T.from_rdflib(p), T.from_rdflib(o),
-                                  T.from_rdflib(c)))) for s, p, o, c in g.quads()]
+                                  T.from_rdflib(c, graph_pos=True)))) for s, p, o, c in g.quads()]
     return [("st", T.norm_st(tuple(T.from_rdflib(t) for t in tr))) for tr in g]
 
 
